@@ -52,6 +52,30 @@ pub mod verif_hooks {
     pub fn wnaf_exp<G: CurveProjective>(table: &[G], wnaf: &[i64]) -> G {
         ::wnaf::wnaf_exp(table, wnaf)
     }
+
+    use std::cell::RefCell;
+    thread_local! {
+        static POINT_CB: RefCell<Option<Box<dyn FnMut(u32)>>> = RefCell::new(None);
+    }
+    /// Install (or remove) this thread's scheduling-point callback.
+    pub fn set_point_callback(cb: Option<Box<dyn FnMut(u32)>>) {
+        POINT_CB.with(|c| *c.borrow_mut() = cb);
+    }
+    /// A scheduling point at a phase boundary inside a multi-phase operation; a no-op unless the
+    /// calling thread installed a callback.
+    pub fn point(id: u32) {
+        POINT_CB.with(|c| {
+            // take the callback out while it runs so that a re-entrant point() cannot double-borrow
+            let cb = c.borrow_mut().take();
+            if let Some(mut f) = cb {
+                f(id);
+                let mut slot = c.borrow_mut();
+                if slot.is_none() {
+                    *slot = Some(f);
+                }
+            }
+        });
+    }
 }
 
 use ff::{Field, PrimeField, PrimeFieldDecodingError, PrimeFieldRepr, ScalarEngine, SqrtField};
